@@ -102,14 +102,24 @@ def in_domain(sc, env):
     return all(h.value <= 1 for a, h in sc.hosts.items() if a not in sc.sensitive_hosts)
 
 
+class PositiveCycle(Exception):
+    """the state graph of the real environment has a cycle with positive total reward"""
+
+    def __init__(self, prefix, cycle, gain):
+        self.prefix, self.cycle, self.gain = prefix, cycle, gain
+
+
 def optimum(env, max_states=4000):
     """exact maximum total reward over goal-reaching episodes (every draw succeeding), by DP over
-    the monotone state graph; returns (value, plan) or (None, None) when too large / unreachable"""
+    the state graph, which is acyclic when progress is monotone; returns (value, plan) or
+    (None, None) when too large / unreachable. A cycle with positive total reward (possible only
+    when some step undoes progress) raises PositiveCycle: episodes can then earn arbitrarily much."""
     acts = env.action_space.actions
     s0 = env.current_state
     key = lambda st: st.tensor.tobytes()
     memo = {}
     count = [0]
+    stack_keys, stack_edges = [], []          # DFS path: states and (action index, reward) edges
 
     def best(st):
         k = key(st)
@@ -121,18 +131,30 @@ def optimum(env, max_states=4000):
         if env.goal_reached(st):
             memo[k] = (0.0, [])
             return memo[k]
+        stack_keys.append(k)
         res = (None, None)
         for i, a in enumerate(acts):
             DR.v = 0.0
             ns, obs, rew, done, info = env.generative_step(st, a)
-            if key(ns) == k:
+            kn = key(ns)
+            if kn == k:
                 continue
+            if kn in stack_keys:
+                j = stack_keys.index(kn)
+                cyc = stack_edges[j:] + [(i, float(rew))]
+                gain = sum(r for _, r in cyc)
+                if gain > 1e-9:
+                    raise PositiveCycle([e[0] for e in stack_edges[:j]], [e[0] for e in cyc], gain)
+                continue                      # a cycle that earns nothing cannot improve an episode
+            stack_edges.append((i, float(rew)))
             v, plan = best(ns)
+            stack_edges.pop()
             if v is None:
                 continue
             tot = float(rew) + v
             if res[0] is None or tot > res[0]:
                 res = (tot, [i] + plan)
+        stack_keys.pop()
         memo[k] = res
         return res
     sys.setrecursionlimit(10000)
@@ -140,6 +162,45 @@ def optimum(env, max_states=4000):
         return best(s0)
     except OverflowError:
         return None, None
+
+
+def pumped_episode(env, prefix, cycle, gain, bound):
+    """a concrete goal-reaching episode through a positive cycle that beats `bound`:
+    prefix, the cycle often enough, then a shortest completion to the goal (BFS). Returns
+    (plan, total) or (None, None) when the goal is not reachable from the cycle."""
+    acts = env.action_space.actions
+    key = lambda st: st.tensor.tobytes()
+
+    def run(st, plan):
+        tot = 0.0
+        for i in plan:
+            DR.v = 0.0
+            st, _, rew, _, _ = env.generative_step(st, acts[i])
+            tot += float(rew)
+        return st, tot
+    st, tot = run(env.current_state, prefix)
+    # completion from the cycle's state, by BFS
+    frontier, seen = [(st, [])], {key(st)}
+    completion = None
+    while frontier and completion is None and len(seen) < 5000:
+        nxt = []
+        for s, pl in frontier:
+            if env.goal_reached(s):
+                completion = pl
+                break
+            for i, a in enumerate(acts):
+                DR.v = 0.0
+                ns = env.generative_step(s, a)[0]
+                if key(ns) not in seen:
+                    seen.add(key(ns)); nxt.append((ns, pl + [i]))
+        frontier = nxt
+    if completion is None:
+        return None, None
+    _, ctot = run(st, completion)
+    rounds = int(max(0.0, bound - tot - ctot) // gain) + 2
+    plan = prefix + cycle * rounds + completion
+    end, total = run(env.current_state, plan)
+    return (plan, total) if env.goal_reached(end) else (None, None)
 
 
 def run_case(args):
@@ -189,7 +250,18 @@ def run_case(args):
                     replay=dict(kind="bound-hops", scenario=desc, hops=hops_i, minimal_subnets=minsub)))
         # exact optimum on small instances of the property's domain
         if len(sc.hosts) <= 6 and in_domain(sc, env):
-            opt, plan = optimum(env, 3000 if tier == "quick" else 20000)
+            try:
+                opt, plan = optimum(env, 3000 if tier == "quick" else 20000)
+            except PositiveCycle as pc:
+                opt, plan = None, None
+                bound = float(env.get_score_upper_bound())
+                ep, total = pumped_episode(env, pc.prefix, pc.cycle, pc.gain, bound)
+                if ep is not None and total > bound + 1e-6:
+                    res["findings"].append(dict(property="C20", kind="failing-input",
+                        what=f"progress can be undone and collected again: a cycle of {len(pc.cycle)} actions earns "
+                             f"+{pc.gain} per round, so a goal-reaching episode earns {total} > advertised upper bound {bound}",
+                        replay=dict(kind="bound-episode", scenario=desc, plan=ep, total=total, bound=bound,
+                                    prefix=pc.prefix, cycle=pc.cycle, gain=pc.gain, hops=hops_i)))
             if opt is not None:
                 res["dp"] = True
                 bound = float(env.get_score_upper_bound())
@@ -206,10 +278,14 @@ def run_case(args):
                         f["key"] = key
                     res["findings"].append(f)
                 res["sample"] = dict(shape=res["shape"], hops=hops_i, bound=bound, optimum=opt, plan=plan)
-    except C.Untranslatable:
+    except (C.Untranslatable, C.ImplLayout, C.ImplAction):
         pass
     except Exception as e:
-        res["error"] = "".join(traceback.format_exception(type(e), e, e.__traceback__))[-3000:]
+        if C.raised_by_implementation(e):
+            # the environment itself raises while being stepped: C10's business (DYN, LAYOUT report it)
+            res["impl_raised"] = f"{type(e).__name__}: {str(e)[:100]}"
+        else:
+            res["error"] = "".join(traceback.format_exception(type(e), e, e.__traceback__))[-3000:]
     return res
 
 
@@ -230,6 +306,7 @@ def run(tier, seed):
     return dict(suite="bound", tier=tier, seed=seed, scenarios=len(rs), evaluations=len(rs),
                 exact_optima=sum(1 for r in rs if r["dp"]), shapes=dict(shapes),
                 out_of_model=sum(1 for r in rs if r.get("out_of_model")),
+                implementation_raised=sum(1 for r in rs if r.get("impl_raised")),
                 hops_hist=dict(collections.Counter(str(r["hops"]) for r in rs)),
                 distinct_nontrivial=len(shapes) + sum(1 for r in rs if r["dp"]),
                 traces=sum(1 for r in rs if r["dp"]),
